@@ -37,6 +37,7 @@ from vgi_rpc.rpc import (
     _deserialize_params,
     _emit_access_log,
     _flush_collector,
+    _flush_collector_logs,
     _get_auth_and_metadata,
     _log_method_error,
     _read_request,
@@ -301,7 +302,8 @@ def _run_stream_init_sync(
                 outcome.error_type = _log_method_error(protocol_name, method_name, server_id, exc)
                 outcome.error_message = _truncate_error_message(exc)
                 outcome.http_status = HTTPStatus.INTERNAL_SERVER_ERROR
-                raise _RpcHttpError(exc, status_code=outcome.http_status) from exc
+                # The logs the init method emitted before raising ride ahead of the error.
+                raise _RpcHttpError(exc, status_code=outcome.http_status, write_logs=sink.flush_contents) from exc
 
             # Mint the stream's call token once, here.  Everything it carries —
             # the call state, both schemas, the stream id — is fixed for the
@@ -713,6 +715,9 @@ def _run_http_exchange_turn(
         outcome.http_status = HTTPStatus.INTERNAL_SERVER_ERROR
         raise _RpcHttpError(exc, status_code=outcome.http_status) from exc
 
+    # Collector of the process() call in flight: if the call fails, the client
+    # logs it emitted are still delivered, ahead of the error batch.
+    in_flight: OutputCollector | None = None
     try:
         # Reconcile the inbound batch's schema against the declared
         # input schema (strict on field set, tolerant of order/type).
@@ -756,9 +761,11 @@ def _run_http_exchange_turn(
             kind=app._server.transport_kind,
             implementation=app._server.implementation,
         )
+        in_flight = out
         state.process(ab_in, out, process_ctx)
         if not out.finished:
             out.validate()
+        in_flight = None
 
         # Refresh the cursor token.  The call token is not re-issued: nothing
         # it carries can have changed, and the client still holds it.
@@ -820,7 +827,13 @@ def _run_http_exchange_turn(
         outcome.error_type = _log_method_error(protocol_name, method_name, server_id, exc)
         outcome.error_message = _truncate_error_message(exc)
         outcome.http_status = HTTPStatus.INTERNAL_SERVER_ERROR
-        raise _RpcHttpError(exc, status_code=outcome.http_status, schema=output_schema) from exc
+        failed = in_flight
+        raise _RpcHttpError(
+            exc,
+            status_code=outcome.http_status,
+            schema=output_schema,
+            write_logs=(lambda w, _s: _flush_collector_logs(w, failed)) if failed is not None else None,
+        ) from exc
 
 
 def _exchange_error_response(
@@ -1033,6 +1046,9 @@ def _run_http_producer_turn(
             if init_request_metadata is not None
             else _TICK_BATCH
         )
+        # Collector of the process() call in flight: if the call fails, the client
+        # logs it emitted are still delivered, ahead of the error batch.
+        in_flight: OutputCollector | None = None
         try:
             while True:
                 # Snapshot the budgets remaining at the start of this iteration.
@@ -1052,10 +1068,12 @@ def _run_http_producer_turn(
                     externalization_enabled=externalization_enabled,
                 )
                 current_out[0] = out
+                in_flight = out
                 state.process(first_tick, out, produce_ctx)
                 first_tick = _TICK_BATCH  # only the first process() sees init metadata
                 if not out.finished:
                     out.validate()
+                in_flight = None
                 # Pre-flight the external cap BEFORE flushing — predicting the
                 # upload size from the data batch's buffer size lets us refuse
                 # a violating upload without paying the storage round-trip.
@@ -1157,6 +1175,8 @@ def _run_http_producer_turn(
             # client that only reads the first stream sees a valid header and
             # no error at all.
             _current_response_status.set(HTTPStatus.INTERNAL_SERVER_ERROR)
+            if in_flight is not None:
+                _flush_collector_logs(writer, in_flight)
             _write_error_batch(writer, schema, exc, server_id=server_id)
     # Close the codec BEFORE getvalue(): the compressed frame is only complete
     # once the stream is finalised.
